@@ -240,6 +240,9 @@ def run(repo='/repo', tier='quick'):
         from .. import typestate
         typestate.check_sticky(db, res, 'C09.g')
     res.assumptions += ['callbacks return only documented htp_status_t codes', 'liveness (no endless DATA_OTHER ping-pong) is not decided']
+    from . import mirror
+    mirror.run(db, res, 'C09.h', [('htp_conn_track_inbound_data', 'htp_conn_track_outbound_data', None), ('htp_connp_req_data_consumed', 'htp_connp_res_data_consumed', None),
+                                  ('htp_req_handle_state_change', 'htp_res_handle_state_change', None)])
     return res
 
 
